@@ -221,7 +221,7 @@ def tset_case(draw):
         hi = lo + draw(st.sampled_from([1.0, 3.5, 10.0, 3.0]))
         jp = dict(xjumplo=lo, xjumphi=hi, xjumpval=draw(st.sampled_from([0.5, -1.25, 3.0, 0.0])))
     return dict(ntr=ntr, nx=nx, nc=nc, func=func, xkind=xkind, rows=rows, coeff=coeff, jump=jp, ykind=draw(st.sampled_from(['exact', 'noisy'])),
-                xminmax=draw(st.sampled_from([None, None, 'wider'])), rerange=draw(st.sampled_from([None, None, [2.0, 3.0], [0.0, 10.0]])), zeros=draw(st.lists(st.integers(0, ntr * nx - 1), max_size=5, unique=True)),
+                xminmax=draw(st.sampled_from([None, None, 'wider', 'xmin-only', 'xmax-only'])), rerange=draw(st.sampled_from([None, None, [2.0, 3.0], [0.0, 10.0]])), zeros=draw(st.lists(st.integers(0, ntr * nx - 1), max_size=5, unique=True)),
                 noise=[draw(uf) for _ in range(8)])
 
 
@@ -232,6 +232,10 @@ def tset_body(case):
     kw = dict(ncoeff=nc, func=func, maxiter=0)
     if case['xminmax'] == 'wider':
         kw.update(xmin=float(X.min()) - 2.0, xmax=float(X.max()) + 3.0)
+    elif case['xminmax'] == 'xmin-only':       # each limit is a keyword of its own: the other one comes from the positions
+        kw.update(xmin=float(X.min()) - 2.0)
+    elif case['xminmax'] == 'xmax-only':
+        kw.update(xmax=float(X.max()) + 3.0)
     xmin = kw.get('xmin', X.min())
     xmax = kw.get('xmax', X.max())
     jp = case['jump']
